@@ -18,6 +18,9 @@ EXPLANATION = (
   "timestamps, the arrow and the align/line cue settings the WebVTT writer prints are accepted by the reader (timestamp regex with "
   "groups recovered, setting keys and enumerated values within the literal sets the reader tests)."
   " (STATE-alias / STATE-global) no function of the anchored modules mutates a module- or class-level container, rebinds module / class state or mutates a mutable default argument, so a result never depends on earlier calls;"
+  " (LINT-i) as in C04;"
+  " (RAISE-guard) no method that always raises (Ruby.push_child) is called on the parser cursor where the cursor can be a Ruby;"
+  " (NUL, arithmetic) a timestamp that failed to parse is not used in arithmetic or ordering;"
 )
 RULE_TEXT = "per call site / function / enum / printed sample"
 UNDECIDED = ["cue-setting geometry (line numbers <= 0, position with size)", "tag scoping", "region sharing for equal settings"]
